@@ -159,3 +159,26 @@ Proof.
   destruct (ll_info_pass false vs li_zero) as [info o] eqn:Ei. cbn [snd] in Hinfo. subst o.
   eexists. split; [reflexivity|]. cbn [ll_csub ll_psub ll_cid ll_pid ll_ttl ll_values ll_contents ll_payload]. repeat split; reflexivity.
 Qed.
+
+(* SerializeTo reads only ChassisID, PortID, TTL and Values *)
+Lemma ll_serialize_fields l1 l2 payload fixl csum junk :
+  ll_csub l1 = ll_csub l2 -> ll_cid l1 = ll_cid l2 -> ll_psub l1 = ll_psub l2 -> ll_pid l1 = ll_pid l2 ->
+  ll_ttl l1 = ll_ttl l2 -> ll_values l1 = ll_values l2 ->
+  fst (ll_serialize l1 payload fixl csum junk) = fst (ll_serialize l2 payload fixl csum junk).
+Proof.
+  intros H1 H2 H3 H4 H5 H6. destruct l1 as [a1 a2 a3 a4 a5 a6 a7 a8 a9 a10], l2 as [b1 b2 b3 b4 b5 b6 b7 b8 b9 b10]. cbn [ll_csub ll_cid ll_psub ll_pid ll_ttl ll_values] in *. subst.
+  unfold ll_serialize, ll_serialize_gen, ll_total. cbn [ll_csub ll_cid ll_psub ll_pid ll_ttl ll_values].
+  destruct (md_emit _ junk); reflexivity.
+Qed.
+
+(* re-serializing the decoded layer gives the same bytes *)
+Lemma ll_fixpoint : forall l csum junk bytes l' old d junk2,
+  lldp_wf l -> ll_serialize l [] true csum junk = (Ok bytes, l') -> ll_decode_into old bytes = (d, Ok tt, false) ->
+  fst (ll_serialize d [] true csum junk2) = Ok bytes.
+Proof.
+  intros l csum junk bytes l' old d junk2 W S D.
+  destruct (ll_roundtrip l csum junk bytes l' old W S) as [d' [D' [E1 [E2 [E3 [E4 [E5 [E6 _]]]]]]]].
+  rewrite D in D'. inversion D'; subst d'.
+  rewrite (ll_serialize_fields d l [] true csum junk2 E1 E2 E3 E4 E5 E6).
+  rewrite (ll_serialize_junk_free l [] true csum junk2 junk), S. reflexivity.
+Qed.
